@@ -24,6 +24,7 @@ FUNCTIONS = ['msdm.core.pomdp.pomdp.PartiallyObservableMDP.state_estimator', 'ms
              'msdm.core.pomdp.beliefmdp.BeliefMDP.reward', 'msdm.core.pomdp.beliefmdp.BeliefMDP.actions',
              'msdm.core.pomdp.policy.ValueBasedTabularPOMDPPolicy.initial_agentstate', 'msdm.core.pomdp.policy.ValueBasedTabularPOMDPPolicy.next_agentstate']
 ASSUMPTIONS = [
+    "tier U (state_estimator, predictive_observation_dist): both/all three loops cut; states, observations are atoms (z3 integers), supports are index-addressed uninterpreted sequences of any length; the defaultdict(float) accumulator is a total z3 array read through an arbitrary focus key J (the clause holds for every J); dict comprehensions over the accumulator are element-wise, seen through J (keys of a dict are unique); the builtin sum over the accumulator's values is trusted (only total >= entry(J) >= 0 is used, which holds for non-negative inputs); predictive_observation_dist: the normalisation assert is assumed to pass (total mass 1 follows from normalised inputs; proved in tier B for the bounded family)",
     'floats are mathematical reals',
     'tier B: POMDP skeleton family of specs/pomdpspec.py ((S,A,O) up to (3,2,3), non-square, zero entries in T and O, absorbing states); belief '
     'components are ALL positive reals on the simplex for every zero-pattern of the belief (vertices included); transition / observation probabilities '
@@ -496,7 +497,7 @@ MANIFEST_ENTRY = dict(
     text=('Contracts on the dict and vectorised Bayes filters, the predictive observation distribution, the observation matrix, every BeliefMDP method '
           'and the value-based agent-state update. For each POMDP skeleton and every zero-pattern of the belief, z3 proves the clauses for ALL beliefs '
           'on that face of the simplex (transition/observation probabilities generic rationals; fully symbolic on the smallest skeleton).'),
-    note='Bounded skeleton family (tier B); floats as reals.',
+    note='Bounded skeleton family (tier B); floats as reals. Tier U: state_estimator and predictive_observation_dist with all loops cut, supports of any size (Bayes weights by recursive ghost sums).',
 )
 END_MANIFEST_ENTRY = True
 
